@@ -448,4 +448,63 @@ def spec09 (inp : Input) (srcSlots destSlots masks fmasks : List String) : List 
             [("fromN:" ++ m, (Outcome.value (idealFrom inp p t (nilsOf m destSlots))).show sl), ("reset:" ++ m, "same")])
         else [])
 
+
+/-! ## C15 — accessor mode -/
+
+/-- how often a written leaf is written by the method: non-zero constructor argument + statements -/
+def writesOf (tree : Tree) (ctor : Option (List CtorArg)) (stmts : List Claim) (l : Leaf) : Nat :=
+  (match ctor with
+   | some as => (as.filter (fun a => a.rd.isSome && a.p.path == l.path)).length
+   | none => 0) +
+  (stmts.filter (fun c => match resolveField tree c.wr with | some wl => wl.path == l.path | none => false)).length
+
+def obs15 (inp : Input) : List (String × String) :=
+  if !modelCompiles inp then [("compile", "error")] else
+  let p := plan inp
+  obs05 inp
+    ++ (if toGen inp then (leavesOf inp.dest).map (fun l =>
+          ("writes:to:" ++ joinPath l.path, toString (writesOf inp.dest p.destCtor p.toStmts l))) else [])
+    ++ (if fromGen inp then (leavesOf inp.src).map (fun l =>
+          ("writes:from:" ++ joinPath l.path, toString (writesOf inp.src p.srcCtor p.fromStmts l))) else [])
+
+/-- C15: every mapped writable leaf is written exactly once (as a constructor argument or through
+    its setter / by assignment), every other leaf never -/
+def spec15 (inp : Input) : List (String × String) :=
+  spec05 inp
+    ++ (if toGen inp then (leavesOf inp.dest).filterMap (fun l => match candsTo inp l with
+          | [] => some ("writes:to:" ++ joinPath l.path, "0")
+          | [_] => some ("writes:to:" ++ joinPath l.path, "1")
+          | _ => none) else [])
+    ++ (if fromGen inp then (leavesOf inp.src).filterMap (fun l => match candsFrom inp l with
+          | [] => some ("writes:from:" ++ joinPath l.path, "0")
+          | [_] => some ("writes:from:" ++ joinPath l.path, "1")
+          | _ => none) else [])
+
+def genArgs (inp : Input) : List CtorArg :=
+  let p := plan inp
+  (if toGen inp then p.destCtor.getD [] else []) ++ (if fromGen inp then p.srcCtor.getD [] else [])
+
+def genStmts (inp : Input) : List Claim :=
+  let p := plan inp
+  (if toGen inp then p.toStmts else []) ++ (if fromGen inp then p.fromStmts else [])
+
+/-- F_setOnlyRead: a set-only field on the reading side is "read" as `x.SetF` (a method value): does not compile -/
+def F_setOnlyRead (inp : Input) : Bool :=
+  (genStmts inp).any (fun c => c.rd.isSet) || (genArgs inp).any (fun a => match a.rd with | some rd => rd.isSet | none => false)
+
+/-- F_ctorPriority: a constructor argument is assigned / converted although a mapper method with
+    exactly those types exists (plain field mapping would call the method) -/
+def F_ctorPriority (inp : Input) : Bool :=
+  (genArgs inp).any (fun a => match a.rd with
+    | some rd => (a.strat == .assign || a.strat == .conv) && (firstFn (indexed inp.fns) rd.ty a.p.ty).isSome
+    | none => false)
+
+def region15 (inp : Input) : String :=
+  if !grammarOk inp || !(inp.srcNew || inp.destNew) || !namesOk inp then "Out"
+  else if F_setOnlyRead inp then "F_setOnlyRead"
+  else if !modelCompiles inp then "Out"
+  else if F_ctorPriority inp then "F_ctorPriority"
+  else if F_multiMatch inp then "Out"
+  else "WF"
+
 end ShootVerif.Mapper
